@@ -17,7 +17,7 @@ use garble_lang::ast::{Type, Variant};
 use garble_lang::token::{MetaInfo, SignedNumType, UnsignedNumType};
 use garble_lang::{CompileTimeError, TypedProgram};
 use serde_json::{json, Map, Value};
-use std::collections::{BTreeMap, HashSet};
+use std::collections::{BTreeMap, BTreeSet, HashMap, HashSet};
 use std::io::{BufRead, Read, Write};
 use std::path::PathBuf;
 use std::process::{Child, ChildStdin, Command, Stdio};
@@ -140,10 +140,56 @@ fn fe_program_inner(src: &str, do_compile: bool, t0: Instant) -> String {
             let stage = if unspecified { "compile[unspecified-literal-type-left-by-check]" } else { "compile" };
             return format!("P {stage} {}", one_line(&p));
         }
-        Ok(Err(es)) => return judge_errors("compile", src, CompileTimeError::CompilerError(es)),
+        Ok(Err(es)) => {
+            let judged = judge_errors("compile", src, CompileTimeError::CompilerError(es));
+            if judged.starts_with('E') {
+                if let Some(r) = fe_compile_with_consts(&typed) {
+                    if !r.starts_with('E') {
+                        return r;
+                    }
+                }
+            }
+            return judged;
+        }
         Ok(Ok(n)) => n,
     };
     format!("O compiled {r}")
+}
+
+/// Programs that name constants of other parties cannot be compiled without them (the attempt above
+/// ends in a located "missing constant" error): compile them again with a value synthesized for
+/// every constant the type checker lists.
+fn fe_compile_with_consts(typed: &TypedProgram) -> Option<String> {
+    use garble_lang::literal::Literal;
+    if typed.const_deps.is_empty() {
+        return None;
+    }
+    let mut consts: HashMap<String, HashMap<String, Literal>> = HashMap::new();
+    for (party, deps) in typed.const_deps.iter() {
+        for (name, (ty, _)) in deps.iter() {
+            let lit = match ty {
+                Type::Bool => Literal::True,
+                Type::Unsigned(t) => Literal::NumUnsigned(2, *t),
+                Type::Signed(t) => Literal::NumSigned(-2, *t),
+                _ => continue,
+            };
+            consts.entry(party.clone()).or_default().insert(name.clone(), lit);
+        }
+    }
+    Some(match catch(|| typed.compile_with_constants("main", consts, &garble_lang::CompileOptions::default()).map(|(c, _, _)| c.gates.len())) {
+        Err(p) => {
+            // (same cause attribution as for the compilation without constants)
+            let unspecified = catch(|| {
+                let dbg = format!("{typed:?}");
+                dbg.contains("Unsigned(Unspecified)") || dbg.contains("Signed(Unspecified)")
+            })
+            .unwrap_or(false);
+            let stage = if unspecified { "compile[unspecified-literal-type-left-by-check]" } else { "compile-with-constants" };
+            format!("P {stage} {}", one_line(&p))
+        }
+        Ok(Err(es)) => format!("E compile-with-constants {}", es.len()),
+        Ok(Ok(n)) => format!("O compiled {n}"),
+    })
 }
 
 fn fe_literal(cache: &mut Option<(u64, Option<TypedProgram>)>, payload: &str) -> String {
@@ -1060,6 +1106,8 @@ pub fn run(ctx: &Ctx) -> i32 {
     let n_tokens_corpus: usize = bases.iter().map(|b| b.toks.len()).sum();
 
     // ---- main phases
+    let grid = super::c07_grid::programs();
+    let grid_classes: BTreeSet<&'static str> = grid.iter().map(|(c, _)| *c).collect();
     let results: Vec<St> = par(WORKERS, |w| {
         let mut rng = Rng::derive(ctx.seed, 0x0700 + w as u64);
         // thorough tier: every second worker runs the plain release build (no overflow checks, no
@@ -1072,6 +1120,22 @@ pub fn run(ctx: &Ctx) -> i32 {
             *k += 1;
             (*k - 1) % WORKERS == w
         };
+
+        // -- G: the slot grid (every kind of value / type / pattern / const expression in every kind
+        //       of slot): enumerated, tiny programs, runs first
+        let mut g_complete = true;
+        for (class, text) in grid.iter() {
+            if ctx.past(0.25) {
+                g_complete = false;
+                break;
+            }
+            if mine(&mut k) {
+                f.prog(class, "slot grid", text.clone(), true);
+            }
+        }
+        for class in grid_classes.iter() {
+            f.st.exhaustive_classes.insert(class, g_complete);
+        }
 
         // -- A: prefixes (every character prefix, every token prefix) and single-token
         //       deletion / duplication / adjacent swap at every position: enumerated
